@@ -17,7 +17,7 @@ from simkit.core import H
 N_KEYS = 12
 
 SPEND = ['spend_missing', 'spend_spent', 'spend_other_fork', 'spend_same_block', 'dup_ref_in_tx',
-         'dup_ref_in_block', 'null_ref', 'sig_other_key', 'sig_other_message', 'outputs_changed',
+         'dup_ref_in_block', 'dup_ref_in_block_apart', 'null_ref', 'sig_other_key', 'sig_other_message', 'outputs_changed',
          'input_added', 'input_removed', 'inputs_reordered', 'sigs_swapped', 'placeholder_sig',
          'coinbasedata_sig', 'junk_sig', 'low_height_steal', 'second_sig_junk', 'second_sig_copy', 'second_sig_other_key',
          'replayed_sig_new_outputs', 'spend_noncurve_key_output', 'spend_zero_key_forged_sig']
@@ -187,6 +187,29 @@ def f_dup_ref_in_block(sim, rb, op, d, a, b):
     r = t1.inputs[0].output_reference
     ref = (r.hash, r.index)
     v = rb.utxo[ref][0]
+    _add_tx(d, make_tx([ref], [(v, key(b % N_KEYS))], [_owned(sim, rb, ref)]), 0)
+
+
+def f_dup_ref_in_block_apart(sim, rb, op, d, a, b):
+    """The same output spent by two transactions of one block that are NOT neighbours: unrelated honest transactions sit
+    between the two spends (and the second spend is the block's last transaction)."""
+    if not d['others']:
+        return False
+    t1 = d['others'][0]
+    r = t1.inputs[0].output_reference
+    ref = (r.hash, r.index)
+    v = rb.utxo[ref][0]
+    between = 0
+    for j in range(1 + a % 2):
+        r2 = _pick(sim, rb, a + 7 * j + 1, d['used'] | {ref})
+        if r2 is None:
+            break
+        d['used'].add(r2)
+        _add_tx(d, make_tx([r2], [(rb.utxo[r2][0], key((b + j) % N_KEYS))], [_owned(sim, rb, r2)]), 0)
+        between += 1
+    if not between:
+        return False
+    sim.res.bump('probe:conflicting_spends_with_transactions_between_them')
     _add_tx(d, make_tx([ref], [(v, key(b % N_KEYS))], [_owned(sim, rb, ref)]), 0)
 
 
